@@ -123,7 +123,7 @@ if mode == 'solo':
     c = Count()
     r = run_one(text, table, btable, c, 0, header, bheader)
     r['steps'] = c.n
-    print(json.dumps(r))
+    print(json.dumps(r, default=repr))
 elif mode == 'interleave':
     (qa, qb), limit = arg
     ka, kb = qa['steps'], qb['steps']
@@ -147,7 +147,7 @@ elif mode == 'interleave':
                 bad.append({'schedule': sched_list, 'query': q['text'], 'solo': want, 'interleaved': out[i], 'other_query': (qb if i == 0 else qa)['text']})
                 break
         if len(bad) >= 3: break
-    print(json.dumps({'n': n, 'alternating': alternating, 'bad': bad}))
+    print(json.dumps({'n': n, 'alternating': alternating, 'bad': bad}, default=repr))
 elif mode == 'history':
     pool, maxlen = arg
     bad = []; n = 0
@@ -164,7 +164,7 @@ elif mode == 'history':
                                 'btable': q['btable'], 'bheader': q.get('bheader'), 'fresh': want, 'in_sequence': got,
                                 'queries_run_before_in_this_process (last 12: name, header, bheader)': [[pool[j]['name'], pool[j].get('header'), pool[j].get('bheader')] for j in executed[-12:]]})
                 executed.append(qi)
-    print(json.dumps({'n': n, 'bad': bad}))
+    print(json.dumps({'n': n, 'bad': bad}, default=repr))
 '''
 
 
